@@ -15,8 +15,8 @@ Flags == {"chunked", "skipChunkIdx", "skipRepChannels", "skipRepSchemas", "skipS
 Shapes == {"empty", "schemaless", "withschema"}     \* no message at all; messages on a channel without / with a schema
 Modes == {"default", "idxfile", "idxlog", "scan"}
 
-VARIABLES fs, shape, done
-vars == <<fs, shape, done>>
+VARIABLES fs, shape, seekable, done      \* seekable: the Reader was built over an io.ReadSeeker (a file) or over a plain io.Reader (a pipe)
+vars == <<fs, shape, seekable, done>>
 
 Has(f) == f \in fs
 NMsgs == IF shape = "empty" THEN 0 ELSE 2
@@ -39,6 +39,7 @@ IndexedResult ==
 
 Outcome(mode) ==
   CASE mode = "scan" -> [class |-> "exact", via |-> "scan"]
+    [] ~seekable -> [class |-> "error", via |-> "none"]            \* as coded: "indexed reader requires a seekable reader", whatever the order
     [] CanIndex -> [class |-> IndexedResult, via |-> "index"]
     [] mode = "idxlog" -> [class |-> "error", via |-> "none"]      \* no index available, only file-order reads are supported
     [] OTHER -> [class |-> "exact", via |-> "scan"]                \* fall back to the scan
@@ -47,17 +48,20 @@ Outcome(mode) ==
    every schema in the summary *)
 Indexable == Has("chunked") /\ ~Has("skipChunkIdx") /\ ~Has("skipRepChannels") /\ (shape = "withschema" => ~Has("skipRepSchemas"))
 
-Init == fs \in SUBSET Flags /\ shape \in Shapes /\ done = FALSE
-Next == ~done /\ done' = TRUE /\ UNCHANGED <<fs, shape>>
+Init == fs \in SUBSET Flags /\ shape \in Shapes /\ seekable \in BOOLEAN /\ done = FALSE
+Next == ~done /\ done' = TRUE /\ UNCHANGED <<fs, shape, seekable>>
 Spec == Init /\ [][Next]_vars
 
 (* C02 *)
 NeverSilentlyFewer == \A m \in Modes : Outcome(m).class \in {"exact", "error"}
-ErrorsOnlyWithoutIndex == \A m \in Modes : Outcome(m).class = "error" => ~Indexable
-IndexUsedWhenIndexable == Indexable => \A m \in Modes \ {"scan"} : Outcome(m) = [class |-> "exact", via |-> "index"]
+ErrorsOnlyWithoutIndex == \A m \in Modes : Outcome(m).class = "error" => (~Indexable \/ ~seekable)
+IndexUsedWhenIndexable == (Indexable /\ seekable) => \A m \in Modes \ {"scan"} : Outcome(m) = [class |-> "exact", via |-> "index"]
 (* the statistics shortcut never claims the index for a file that has messages *)
 ShortcutSound == (NChunkIdx = 0 /\ CanIndex) => NMsgs = 0
+(* C03: a request for a time order is served through the index or refused - never answered by the scan, which returns
+   file order (whatever the source and the summary) *)
+OrderedNeverByScan == Outcome("idxlog").via # "scan"
 
-Export == done => PrintT(<<"DECISION", ToJson([flags |-> [f \in Flags |-> Has(f)], shape |-> shape,
+Export == done => PrintT(<<"DECISION", ToJson([flags |-> [f \in Flags |-> Has(f)], shape |-> shape, seekable |-> seekable,
                                                pred |-> [m \in Modes |-> Outcome(m)]])>>)
 =============================================================================
